@@ -23,6 +23,7 @@ Structural clauses decided (cardillo/urdf/system_from_urdf.py):
 from __future__ import annotations
 
 import ast
+import re
 
 from ..core import AnalysisError, dotted, norm_src, walk_no_nested, arity
 from ..cfg import CFG
@@ -424,6 +425,35 @@ def axis_invariance(ctx):
             rep.bad("C28.R6", C, v.node, f"branch `{test}`: {v.msg} under scaling of the URDF axis", f"{URDF}:{getattr(v.node, 'lineno', '?')}")
 
 
+def traversal_is_worklist(ctx, rule="C28.R16"):
+    """Element order carries no meaning in URDF.  A single pass `for parent in urdf.links` that skips a link whose body does not exist yet
+    silently drops the subtree of every link declared before its parent (the imported part is self-consistent, assemble() raises nothing)."""
+    rep = ctx.rep
+    fn = ctx.repo.get(URDF, "system_from_urdf")
+    C = f"{URDF}:system_from_urdf"
+    loops = [w for w in ast.walk(fn) if isinstance(w, (ast.For, ast.While)) and any(isinstance(x, ast.Attribute) and x.attr == "child_map" for x in ast.walk(w))]
+    outer = [l for l in loops if not any(l is not m and any(x is l for x in ast.walk(m)) for m in loops)]
+    if not outer:
+        rep.ok(rule, C, "no loop over the kinematic tree found (no verdict)", verdict="unknown", trivial=True)
+        return
+    lp = outer[0]
+    if isinstance(lp, ast.While):
+        pops = any(isinstance(x, ast.Call) and isinstance(x.func, ast.Attribute) and x.func.attr in ("pop", "popleft") for x in ast.walk(lp))
+        apps = any(isinstance(x, ast.Call) and isinstance(x.func, ast.Attribute) and x.func.attr in ("append", "extend", "appendleft") and norm_src(x.func.value) == norm_src(lp.test).replace("len(", "").rstrip(")")
+                   for x in ast.walk(lp))
+        if pops and apps:
+            rep.ok(rule, C, f"worklist `while {norm_src(lp.test)}`: links are popped and their children appended")
+        else:
+            rep.ok(rule, C, f"`while {norm_src(lp.test)[:40]}`: not recognised as a worklist (no verdict)", verdict="unknown")
+    else:
+        it = norm_src(lp.iter)
+        if re.search(r"urdf\.(links|link_map|joints)", it):
+            rep.bad(rule, C, lp, f"the tree is traversed by `for {norm_src(lp.target)} in {it}`: one pass in DOCUMENT order - a link declared before its parent is visited before its body exists, is skipped and "
+                    "never revisited, so its children, their joints and whole subtrees are missing from the system while everything that was imported is consistent", f"{URDF}:{lp.lineno}")
+        else:
+            rep.ok(rule, C, f"`for ... in {it[:40]}`: iteration order not classified (no verdict)", verdict="unknown")
+
+
 def parse_not_memoised(ctx, rule="C28.R15"):
     """'importing yields ... the described robot': a parse result remembered by file path is the description the file held at the first import.
     Regenerated xacro output, a parameter study or a harness that writes every robot to one scratch file then get a self-consistent system of
@@ -499,6 +529,8 @@ def requested_coordinate_verbatim(ctx, rule="C28.R14"):
 
 def run(ctx):
     rep = ctx.rep
+    rep.rule("C28.R16", "the importer reaches every link whatever the order of the <link> elements: the tree is traversed with a worklist that is closed under 'child of a processed link' (children are appended), not in one pass over the document's link list", 1)
+    traversal_is_worklist(ctx)
     rep.rule("C28.R15", "the importer builds the system of the robot the file describes NOW: no function of the URDF module that reads or parses the file is memoised (a cache keyed by the path returns the robot that used to be in the file)", 1)
     parse_not_memoised(ctx)
     rep.rule("C28.R14", "the joint coordinate handed to the joint object (angle0 of revolute / continuous joints) is the requested value itself: every definition that reaches the hand-off is the request, its default or a type conversion - no wrapping, offset or scaling", 1)
@@ -770,4 +802,9 @@ MUTANTS += [
     dict(id="c28-r15-seed", canary=True, what="[seeded by sub-agent] the URDF parse step is memoised with functools.lru_cache keyed by the resolved path", file=URDF,
          edits=[(URDF, "\ndef system_from_urdf(", "\nfrom functools import lru_cache\n\n\n@lru_cache(maxsize=None)\ndef parse_urdf(file_path):\n    return URDF.from_xml_file(file_path)\n\n\ndef system_from_urdf("),
                 (URDF, "    urdf = URDF.from_xml_file(file_path)\n", "    urdf = parse_urdf(str(file_path))\n")], expect="C28.R15"),
+]
+
+MUTANTS += [
+    dict(id="c28-r16-seed", canary=True, what="[seeded by sub-agent] the kinematic tree is traversed in one pass over urdf.links (document order) instead of a worklist", file=URDF,
+         old='    links_to_process = [root]\n    while links_to_process:\n        parent = links_to_process.pop(0)\n        if parent.name not in urdf.child_map:\n', new='    links_to_process = []\n    for parent in urdf.links:\n        if parent.name not in bodies or parent.name not in urdf.child_map:\n', expect="C28.R16"),
 ]
